@@ -121,6 +121,18 @@ def run(chk, ctx):
             for i, st in enumerate(ecb.blocks[bb]["stmts"]):
                 if st["s"] == "assign" and any(isinstance(e, dict) and e.get("f") == "update_output" for e in st["lhs"]["p"]):
                     assigned.add(canon(P.sl(ecb).rvalue(st["rv"], bb, i)))
+        # the clearing assignment is unconditional for the two mid-clock rows: it lies after the first
+        # push of the triple (the checked row, popped last) and dominates the second and third push
+        cfgc = P.cfg(ecb)
+        pos = {bb: i for i, bb in enumerate(cfgc.rpo())}
+        pushes = sorted((bb for bb, t in ecb.calls() if callee_name(t)[0] == "std::vec::Vec::push" and canon(P.call_arg_terms(ecb, bb)[0]) == "self.cache"), key=lambda x: pos[x])
+        abl = [bb for bb in sorted(ecb.reachable_blocks()) for st in ecb.blocks[bb]["stmts"] if st["s"] == "assign" and any(isinstance(e, dict) and e.get("f") == "update_output" for e in st["lhs"]["p"])]
+        good = len(pushes) == 4 and len(abl) == 1
+        if good:
+            A_ = abl[0]
+            p_back, p1, p2, p3 = pushes
+            good = cfgc.dominates(p1, A_) and cfgc.dominates(A_, p2) and cfgc.dominates(A_, p3) and not cfgc.dominates(A_, p1)
+        chk.require(good, "ORD", "ORD:expand_c:mid-clock-rows-always-unchecked", "update_output := false after the first push of the triple and dominating the second and third", "the assignment update_output := false does not dominate both mid-clock pushes (pushes %s, assignment blocks %s)" % (pushes, abl))
         chk.require(assigned == {"0"}, "WHO", "WHO:update_output-only-cleared", "expand_c only ever sets update_output to false (for the two mid-clock rows)", "expand_c assigns update_output %s" % sorted(assigned))
     vals = set()
     for (cb, bb, i, st) in P.constructors("stmt::DataEntries"):
